@@ -12,6 +12,11 @@ import (
 	"pgregory.net/rapid"
 
 	spb "github.com/openconfig/gribi/v1/proto/service"
+	"github.com/openconfig/gribigo/aft"
+	"github.com/openconfig/gribigo/constants"
+	"github.com/openconfig/gribigo/rib"
+	"github.com/openconfig/gribigo/server"
+	"github.com/openconfig/ygot/ygot"
 
 	"verifh/internal/drive"
 	"verifh/internal/ev"
@@ -57,6 +62,13 @@ type Case struct {
 	// Net: the server sits behind a real grpc.Server over bufconn; sessions, readers and
 	// flushers are real gRPC clients (each session on its own connection)
 	Net bool `json:"net,omitempty"`
+	// Hooks: the server is built with both public RIB hooks registered (post-change and
+	// resolved-entry), as a device integration would; the hooks themselves do nothing
+	Hooks bool `json:"hooks,omitempty"`
+	// HookDelay (with Hooks): the post-change hook takes this long (perturb units: n x
+	// Gosched up to 8, microseconds above), as a hook programming hardware would - it
+	// stretches every critical section it is called from
+	HookDelay int `json:"hookdelay,omitempty"`
 }
 
 func setup() {
@@ -95,7 +107,13 @@ func runCase(c Case) *ev.Verdict {
 	if c.Procs > 0 {
 		defer runtime.GOMAXPROCS(runtime.GOMAXPROCS(c.Procs))
 	}
-	s := drive.NewSrv(true, hgen.NIs[1:])
+	var so []server.ServerOpt
+	if c.Hooks {
+		so = append(so, server.WithPostChangeRIBHook(func(constants.OpType, int64, string, ygot.ValidatedGoStruct) { perturb(c.HookDelay) }),
+			server.WithRIBResolvedEntryHook(func(map[string]*aft.RIB, constants.OpType, string, constants.AFT, any, ...rib.ResolvedDetails) {}))
+		v.Class("hooks-registered")
+	}
+	s := drive.NewSrv(true, hgen.NIs[1:], so...)
 	if c.Net {
 		s.UseNet()
 		defer s.Shutdown()
@@ -544,9 +562,21 @@ func TestReplay(t *testing.T) {
 	}
 }
 
+func drawHookDelay(rt *rapid.T) int {
+	d := rapid.IntRange(0, 12).Draw(rt, "hook-yield")
+	if d > 8 {
+		d = rapid.IntRange(9, 150).Draw(rt, "hook-sleep-us")
+	}
+	return d
+}
+
 func drawCase(rt *rapid.T) Case {
 	c := drawCaseN(rt, 2, 8, 3)
 	c.Net = rapid.IntRange(0, 3).Draw(rt, "net?") == 0
+	c.Hooks = rapid.IntRange(0, 2).Draw(rt, "hooks?") == 0
+	if c.Hooks {
+		c.HookDelay = drawHookDelay(rt)
+	}
 	return c
 }
 
@@ -557,6 +587,10 @@ func drawCase(rt *rapid.T) Case {
 func drawChurn(rt *rapid.T) Case {
 	c := drawCaseN(rt, 12, 30, 7)
 	c.Loop = true
+	c.Hooks = rapid.Bool().Draw(rt, "hooks?")
+	if c.Hooks {
+		c.HookDelay = drawHookDelay(rt)
+	}
 	c.Gets, c.Flushes = nil, nil
 	for i := rapid.IntRange(0, 2).Draw(rt, "loop-readers"); i > 0; i-- {
 		c.Gets = append(c.Gets, rapid.IntRange(0, 300).Draw(rt, "get-pause-us"))
@@ -577,6 +611,12 @@ func drawCaseN(rt *rapid.T, minActs, maxActs, elecOneIn int) Case {
 		base := uint64(rapid.IntRange(1, 3).Draw(rt, "idbase")) // deliberately overlapping bases: ties across sessions
 		elecN := uint64(0)
 		nh, nhg := 0, 0
+		// the session's next-hops and groups live in one instance (two sessions in three: DEFAULT),
+		// its prefixes in any instance and refer to the groups across instances
+		home := "DEFAULT"
+		if rapid.IntRange(0, 2).Draw(rt, "home?") == 0 {
+			home = hgen.NIs[rapid.IntRange(1, 2).Draw(rt, "home")]
+		}
 		for a := 0; a < na; a++ {
 			y := rapid.IntRange(0, 12).Draw(rt, "yield")
 			if y > 8 {
@@ -598,16 +638,16 @@ func drawCaseN(rt *rapid.T, minActs, maxActs, elecOneIn int) Case {
 				switch k := rapid.IntRange(0, 9).Draw(rt, "opkind"); {
 				case k < 3 || nh == 0:
 					nh++
-					o = &gen.Op{NI: "DEFAULT", Kind: gen.NH, Act: gen.ADD, Key: fmt.Sprint(10*(si+1) + nh%4), IP: fmt.Sprintf("192.0.2.%d", opid%250+1)}
+					o = &gen.Op{NI: home, Kind: gen.NH, Act: gen.ADD, Key: fmt.Sprint(10*(si+1) + nh%4), IP: fmt.Sprintf("192.0.2.%d", opid%250+1)}
 				case k < 5:
 					nhg++
-					o = &gen.Op{NI: "DEFAULT", Kind: gen.NHG, Act: gen.ADD, Key: fmt.Sprint(10*(si+1) + nhg%3), Hops: []gen.Hop{{Index: uint64(10*(si+1) + rapid.IntRange(0, 3).Draw(rt, "hop"))}}}
+					o = &gen.Op{NI: home, Kind: gen.NHG, Act: gen.ADD, Key: fmt.Sprint(10*(si+1) + nhg%3), Hops: []gen.Hop{{Index: uint64(10*(si+1) + rapid.IntRange(0, 3).Draw(rt, "hop"))}}}
 				case k < 8:
-					o = &gen.Op{NI: ni, Kind: gen.V4, Act: gen.ADD, Key: fmt.Sprintf("10.%d.%d.0/24", si+1, rapid.IntRange(0, 3).Draw(rt, "pfx")), Group: uint64(10*(si+1) + rapid.IntRange(0, 2).Draw(rt, "grp")), GroupNI: "DEFAULT"}
+					o = &gen.Op{NI: ni, Kind: gen.V4, Act: gen.ADD, Key: fmt.Sprintf("10.%d.%d.0/24", si+1, rapid.IntRange(0, 3).Draw(rt, "pfx")), Group: uint64(10*(si+1) + rapid.IntRange(0, 2).Draw(rt, "grp")), GroupNI: home}
 				case k == 8:
 					o = &gen.Op{NI: ni, Kind: gen.V4, Act: gen.DELETE, Key: fmt.Sprintf("10.%d.%d.0/24", si+1, rapid.IntRange(0, 3).Draw(rt, "pfx")), NoPayload: true}
 				default:
-					o = &gen.Op{NI: "DEFAULT", Kind: gen.NH, Act: gen.DELETE, Key: fmt.Sprint(10*(si+1) + rapid.IntRange(0, 3).Draw(rt, "nhdel")), NoPayload: true}
+					o = &gen.Op{NI: home, Kind: gen.NH, Act: gen.DELETE, Key: fmt.Sprint(10*(si+1) + rapid.IntRange(0, 3).Draw(rt, "nhdel")), NoPayload: true}
 				}
 				o.ID = opid
 				ops = append(ops, o)
@@ -619,7 +659,7 @@ func drawCaseN(rt *rapid.T, minActs, maxActs, elecOneIn int) Case {
 			var ops []*gen.Op
 			for j := 0; j < 4; j++ {
 				opid++
-				ops = append(ops, &gen.Op{ID: opid, NI: "DEFAULT", Kind: gen.NH, Act: gen.ADD, Key: fmt.Sprint(10*(si+1) + j%4), IP: fmt.Sprintf("192.0.2.%d", opid%250+1)})
+				ops = append(ops, &gen.Op{ID: opid, NI: home, Kind: gen.NH, Act: gen.ADD, Key: fmt.Sprint(10*(si+1) + j%4), IP: fmt.Sprintf("192.0.2.%d", opid%250+1)})
 			}
 			acts = append(acts, Act{K: "ops", Ops: ops, Vanish: rapid.IntRange(1, 3).Draw(rt, "vanish-at")})
 		}
